@@ -90,6 +90,13 @@ def c12_2(ck, prog):
                     return ('moved?', c['id'])
                 if c.get('callee') == '_dbus_header_cache_invalidate_all':
                     return 'clean'
+            # after an append at the end of the field array (write_basic_field) only the new field's position is
+            # unknown: marking that one entry unknown is an invalidation too
+            if isinstance(user, tuple) and user[0] == 'moved?' and movers.get(user[1]) == 'write_basic_field':
+                for lhs, how, rhs in written_lvalues(ev):
+                    if is_member(lhs, 'value_pos', 'DBusHeaderField') and isinstance(rhs, dict) and is_int(rhs) \
+                            and rhs.get('name') == '_DBUS_HEADER_FIELD_VALUE_UNKNOWN':
+                        return 'clean'
             return user
 
         def on_exit(user, ctx, ret, ev):
